@@ -192,6 +192,9 @@ func runC06Probe() (p c06Probe, err error) {
 		"plain": {}, "skiphooks": {SkipHooks: true}, "ctx": {Context: context.Background()}, "fullsave": {FullSaveAssociations: true},
 		"allowglobal": {AllowGlobalUpdate: true}, "batchsize": {CreateBatchSize: 2}, "skipdeftx": {SkipDefaultTransaction: true},
 		"nonested": {DisableNestedTransaction: true}, "dryrun": {DryRun: true}, "queryfields": {QueryFields: true},
+		// the same with NewDB: the guard that gives the child a statement of its own must not depend on it
+		"newdb": {NewDB: true}, "newdb+ctx": {NewDB: true, Context: context.Background()}, "newdb+skiphooks": {NewDB: true, SkipHooks: true},
+		"newdb+ctx+skiphooks": {NewDB: true, Context: context.Background(), SkipHooks: true},
 	}
 	for k, o := range opts {
 		parent := db.Where("a = ?", 1).Session(&gorm.Session{})
